@@ -124,3 +124,30 @@ Example C09_example :
   vl_ok 3 l /\ vl_ok 3 r /\ map (den 3 (and_lists l r)) [0;1;2] = [false; false; true]
   /\ map (den 3 (or_lists l r)) [0;1;2] = [true; false; true] /\ map (den 3 (not_list l)) [0;1;2] = [false; true; false].
 Proof. cbv. repeat split; auto. Qed.
+
+(* From the path text (CmpParse.v, CmpAddr.v): the comparison filter `$[?(@ inner OP number)]`, OP one of == != < <= > >=,
+   inner a single-valued path of name/index steps, keeps exactly the elements (index order) or members (ascending key
+   order) whose value reached by inner is a number — float64 or json.Number alike — in that relation to the literal;
+   `!=` is the complement of `==` over the members (so members offering no number are kept); the literal is what
+   strconv.ParseFloat (parameter pf) makes of its spelling. *)
+From JP Require Import Json Text Tree Grammar Actions Eval WF EvalInv1 KeyDefs ChainParse AggParse FiltParse CmpParse FiltChain ChainAddr FiltAddr CmpAddr FiltChainAddr.
+From Coq Require Import List. Import ListNotations.
+Theorem C09_comparison_filter_from_text : forall cfg parse_float regex_ok ffun afun regex_match,
+  (forall f v w, small v -> ffun f v = Some w -> small w) ->
+  (forall f l w, Forall small l -> afun f l = Some w -> small w) ->
+  forall i o lit f doc st, forallb rstep_ok i = true -> steps_vg i = false -> lit_ok lit = true ->
+  parse_float (text_of lit) = Some f -> small doc -> ok st ->
+  exists t, parse_with cfg parse_float regex_ok jsonpath_grammar (fchain_path [FC i o lit]) = ParseOk t /\
+            match navp (ctest i o f) ([], doc) with
+            | [] => exists e, fst (eval_run ffun afun regex_match t doc st) = OErr e
+            | l => fst (eval_run ffun afun regex_match t doc st) = OOk (map (loc_result cfg) l)
+            end.
+Proof.
+  intros cfg parse_float regex_ok ffun afun regex_match Hf Ha i o lit f doc st Hs Hvg Hl Hpf Hd Hok.
+  assert (H1 : forallb fstep_ok [FC i o lit] = true) by (cbn [forallb fstep_ok]; rewrite Hs, Hvg, Hl; reflexivity).
+  assert (H2 : forallb (fstep_okp parse_float) [FC i o lit] = true) by (cbn [forallb fstep_okp]; rewrite Hpf; reflexivity).
+  destruct (fchain_retrieval cfg parse_float regex_ok ffun afun regex_match Hf Ha (FC i o lit) [] doc st H1 H2 Hd Hok) as (t & Hp & H).
+  exists t. split; [exact Hp|]. cbn [nav_allf nav1f] in H. unfold lit_num in H. rewrite Hpf in H.
+  rewrite (flat_map_single (fun x : list pstep * value => x)), map_id in H. exact H.
+Qed.
+Print Assumptions C09_comparison_filter_from_text.
